@@ -362,6 +362,8 @@ def settable_for(spec):
         t["n_hidden_dim"] = [1, 2, 4]
     if cls in E.SPARSE:
         t["alpha"] = [0.1, 0.5, 2.0]
+        d = spec["d"]
+        t["groups"] = [None] + ([[[0, d - 1]], [[d - 1], list(range(d - 1))]] if d >= 2 else [[[0]]])
     if cls in ("SparseMLPModel", "SparseMLPMMD"):
         t["M"] = [0.1, 1.0, 10.0]
     if cls == "Douglas":
